@@ -52,11 +52,14 @@ def pixel_ratio(ctx, rule='T4'):
                 and t[2] == 'Err' and dict(t[3])['0'][0] == 'agg' and dict(t[3])['0'][2] == UNSUPPORTED]
         ctx.floor('UnsupportedFeature returns in read_aseprite', len(errs), 1)
         for ebb, et in errs:
-            gs = q.guards(b, ebb)
+            # the header bytes tested on the way to the refusal: conditions of every switch from which the refusal is reachable
+            # (a `match (w, h)` tests h in several blocks, none of which dominates the refusal)
             reads = []
-            for cond, vals, a in gs:
-                if cond[0] == 'discr':
+            upstream = b.cfg.can_reach({ebb})
+            for sw in sorted(q.switches_on(b, lambda d: d[0] != 'discr')):
+                if sw not in upstream or sw == ebb:
                     continue
+                cond = q.switch_cond(b, sw)
                 for r_ in [x for x in walk(cond) if common.is_read(x, ('byte',))]:
                     if r_ not in reads:
                         reads.append(r_)
@@ -105,6 +108,46 @@ def pixel_ratio(ctx, rule='T4'):
 
 
 
+def inlined_matcher(ctx, fn, table, callers):
+    """the value-match decoder `fn` no longer exists as a function: accept the same match written inline in its caller
+    (a switch on the file field itself with the same value set, each arm building the expected variant, `_` -> Err)"""
+    fx = ctx.fx
+    found = False
+    for cn in callers:
+        cb = fx.body(cn)
+        if cb is None:
+            continue
+        for sw in q.switches_on(cb, lambda d: any(common.is_read(x, ('byte', 'word', 'dword')) for x in alts(strip_casts(d)))):
+            tb = q.switch_table(cb, sw)
+            if set(tb['values']) != set(table):
+                continue
+            found = True
+            ctx.inst('T1', fn + '#set', True, 'accepted values %s (matched inline in %s); supported set per spec %s'
+                     % (sorted(tb['values']), cn.split('asefile::')[-1], sorted(table)), tb['span'], key=fn + '|T1|value-set')
+            for v, s_ in sorted(tb['values'].items()):
+                reg = q.edge_region(cb, sw, s_)
+                names = sorted({t[2] for (l, pj, t, bb, sp) in q.defs_in(cb, reg) if t[0] == 'agg' and t[2] is not None and
+                                not (t[1] or '').startswith(('std::', 'core::', 'alloc::'))})
+                ctx.inst('T1', '%s#%s' % (fn, v), names == [table[v]], 'value %s -> %s; expected %s' % (v, names, table[v]), tb['span'],
+                         key='%s|T1|%s' % (fn, v))
+            o = tb['otherwise']
+            ok = o not in tb['values'].values() and q.arm_always_err(cb, o)
+            ctx.inst('T2', fn, ok, 'the `_` arm %s' % ('returns Err on every path' if ok else 'does NOT always return Err '
+                     '(unknown values would be accepted)'), tb['span'], key=fn + '|T2|otherwise')
+            L = cb.cfg.loop_of(sw)
+            if L is None:
+                dom = common.dominates_ok_returns(cb, sw)
+            else:
+                dom = all(cb.cfg.dominates(sw, x) for x, _ in L['back_edges'])
+            ctx.inst('T3', '%s in %s#dominates' % (fn, cn), dom, 'the inline match %s every %s' % (
+                'dominates' if dom else 'does NOT dominate', 'completed iteration of its loop' if L is not None else 'non-error return'),
+                tb['span'], key=ctx.key(cn, 'T3', 'dominates', fn))
+            in_load = cb.path in CG.load_cone(fx)
+            ctx.inst('T3', fn + '#reach', in_load, 'the function holding the match %s in the call-graph cone of read_aseprite'
+                     % ('is' if in_load else 'is NOT'), cb.span, key=fn + '|T3|reach')
+    return found
+
+
 def run(ctx):
     fx = ctx.fx
     g = CG.get(fx)
@@ -124,6 +167,9 @@ def run(ctx):
 
     # ---------------- T1/T2/T3 value matchers
     for fn, (pidx, table, callers) in MATCHERS.items():
+        if fx.body(fn) is None and inlined_matcher(ctx, fn, table, callers):
+            literal_arms += len(table)
+            continue
         b = ctx.anchor(fn)
         if b is None:
             continue
